@@ -2183,30 +2183,39 @@ impl Formatter {
   }
 
   pub fn pattern_array(&mut self, node: &PatternArray) -> String {
-    let mut parts: Vec<String> = vec![];
+    // (text, is an element): neighbouring elements are separated by a comma, so that `a, *` is not
+    // read back as the product `a * …`; the spread and rest markers stand between spaces
+    let mut parts: Vec<(String, bool)> = vec![];
     for p in &node.prefix {
-      parts.push(self.pattern(p));
+      parts.push((self.pattern(p), true));
     }
     if let Some(spread) = &node.spread {
       match spread.kind {
         PatternArraySpreadKind::Spread => {
-          parts.push("…".to_string());
+          parts.push(("…".to_string(), false));
           if let Some(binding) = &spread.binding {
-            parts.push(self.pattern(binding));
+            parts.push((self.pattern(binding), true));
           }
         }
         PatternArraySpreadKind::Rest => {
-          parts.push("|".to_string());
+          parts.push(("|".to_string(), false));
           if let Some(binding) = &spread.binding {
-            parts.push(self.pattern(binding));
+            parts.push((self.pattern(binding), true));
           }
         }
       }
     }
     for p in &node.suffix {
-      parts.push(self.pattern(p));
+      parts.push((self.pattern(p), true));
     }
-    format!("[{}]", parts.join(" "))
+    let mut src = String::new();
+    let mut prev_element = false;
+    for (text, element) in parts {
+      if !src.is_empty() { src.push_str(if prev_element && element { ", " } else { " " }); }
+      src.push_str(&text);
+      prev_element = element;
+    }
+    format!("[{}]", src)
   }
 
   pub fn match_expression(&mut self, node: &MatchExpression) -> String {
